@@ -44,7 +44,7 @@ package filterstorage
 //@ func (*Default).addRuleList
 //@   property C13
 //@   requires ST(s) && newRuleLists != nil && fl != nil && newRuleLists != s.ruleLists
-//@   modifies mapof(newRuleLists), rulelist.filter.engine, replaceCalls, replaces, cleanups, sbLen, copyFailed, lastRefreshText, storageText, engineText, cacheClears, rlRefreshOK
+//@   modifies mapof(newRuleLists), rulelist.filter.engine, replaceCalls, replaces, cleanups, sbLen, copyFailed, lastRefreshText, storageText, engineText, cacheClears, achas, rlRefreshOK
 //@   ensures other-lists-untouched: forall k filter.ID :: k != fl.id ==> has(newRuleLists, k) == old(has(newRuleLists, k)) && newRuleLists[k] == old(newRuleLists[k])
 //@   ensures duplicate-id-ignored: old(has(newRuleLists, fl.id)) ==> has(newRuleLists, fl.id) && newRuleLists[fl.id] == old(newRuleLists[fl.id])
 //@   ensures new-only-after-a-successful-refresh-else-previous: !old(has(newRuleLists, fl.id)) ==>
@@ -112,7 +112,7 @@ package filterstorage
 //@ func (*Default).refresh
 //@   property C13
 //@   requires ST(s) && ref(ctx) != 0 && s.ruleListIdxRefr != nil && (s.ruleLists == nil || allocated(s.ruleLists))
-//@   modifies heap, replaceCalls, replaces, cleanups, sbLen, copyFailed, lastRefreshText, storageText, engineText, cacheClears, rlRefreshOK, idxSkipped
+//@   modifies heap, replaceCalls, replaces, cleanups, sbLen, copyFailed, lastRefreshText, storageText, engineText, cacheClears, achas, rlRefreshOK, idxSkipped
 //@   ensures any-failure-keeps-every-installed-list: err != nil ==> s.ruleLists == old(s.ruleLists)
 //@   ensures installed-lists-are-new-or-previous: err == nil ==> (forall id filter.ID :: has(s.ruleLists, id) ==>
 //@             (s.ruleLists[id] != nil && fresh(s.ruleLists[id])) || (old(has(s.ruleLists, id)) && s.ruleLists[id] == old(s.ruleLists[id])))
